@@ -514,7 +514,9 @@ def check(run):
         "over, equivalent_patterns = find_equivalent_patterns pair by pair; WITHIN windows with a fractional number of "
         "seconds (equal integer parts) around several observations, differing only in the window; object paths with a "
         "list index next to the quoted key spelt the same (x:y[12] / x:y.'12', x:y[*] / x:y.'*': the latter pair is "
-        "reported equivalent by the current code, known finding C09-star-key-vs-any-index); "
+        "reported equivalent by the current code, known finding C09-star-key-vs-any-index); integers at and beyond 2^53 as "
+        "neighbours and a 311-digit literal; rewrites needing two rounds of one settle phase; fixed pairs with the known "
+        "answer in both directions; "
         "every normal form is also written back as pattern text and compared with the original by "
         "the independent evaluator; a case is non-trivial when the pattern(s) parsed, normalised and contain a "
         "compound node" % (depth, nrule, nbound, nnear, nver))
